@@ -1,3 +1,4 @@
+import Plotink.Proofs.C14Gen
 import Plotink.Proofs.C14
 import Mathlib.Tactic.NormNum
 
@@ -73,5 +74,54 @@ theorem C14_strict_counterexample :
   rw [build]
   simp only [hc, List.filter, quad, lo, hi, Strict.all]
   norm_num [extent, extentHit, query]
+
+/-! ## The same statements about the SOURCE-REGENERATED class
+
+`Gen.rtree_Index_init` / `Gen.rtree_Index_intersection` are regenerated from `plotink/rtree.py` on every run
+(`lean/Plotink/Gen/rtree_Index.lean`).  Exact arithmetic (`Rounding.exact`); boxes are `(id, (x1, y1, x2, y2))` with
+`float` coordinates (`C14.encIBoxes`, `C14.encBox`); an instance is the field tuple `C14.encTree`; the returned `set`
+is a duplicate-free list of ids (`C14.encSet`).  Both functions recurse on `fuel`.  Proofs: `Proofs/C14Gen.lean`. -/
+
+/-- **bridge** (construction): `Index(bboxes)`, regenerated, builds the model's tree with the code's own running
+mean as the centre and its eight non-strict quadrant comparisons, for every fuel above the number of boxes -/
+theorem C14_gen_build (amb : Nat) (bs : List IBox) (fuel : Nat) (hf : bs.length < fuel) :
+    Gen.rtree_Index_init Rounding.exact amb fuel (encIBoxes bs)
+      = .val (encTree (extent bs) (build Strict.none (meanCenter id) bs)) :=
+  init_bridge amb bs.length bs fuel rfl hf
+
+/-- **bridge** (query): `intersection`, regenerated, on an encoded tree returns the id set of the model's `query`,
+for every fuel above the depth of the tree -/
+theorem C14_gen_intersection (amb : Nat) (q : Box) (t : Tree) (own : Option Box) (fuel : Nat) (hf : t.depth < fuel) :
+    ∃ l : List Nat, Gen.rtree_Index_intersection Rounding.exact amb fuel (encTree own t) (encBox q) = .val (encSet l) ∧
+      l.Nodup ∧ ∀ i, i ∈ l ↔ i ∈ query q t :=
+  ⟨qset q t, intersection_bridge amb q t own fuel hf, nodup_qset q t, mem_qset q t⟩
+
+/-- `C14_query` / `C14_brute_force` for the regenerated class: build the index from any list of id-tagged boxes with
+`min ≤ max`, ask any query box — with any fuel above the number of boxes both calls return, and the returned set
+contains an id exactly when one of its boxes passes the closed-interval test (= the brute-force answer) -/
+theorem C14_gen_query (amb : Nat) (bs : List IBox) (hv : ∀ b ∈ bs, b.2.Valid) (q : Box) (fuel : Nat)
+    (hf : bs.length < fuel) :
+    ∃ (t : Py.Val) (l : List Nat), Gen.rtree_Index_init Rounding.exact amb fuel (encIBoxes bs) = .val t ∧
+      Gen.rtree_Index_intersection Rounding.exact amb fuel t (encBox q) = .val (encSet l) ∧ l.Nodup ∧
+      (∀ i, i ∈ l ↔ ∃ b, (i, b) ∈ bs ∧ overlaps q b = true) ∧ (∀ i, i ∈ l ↔ i ∈ bruteForce q bs) := by
+  have hd := C14_terminates Strict.none (meanCenter id) bs
+  obtain ⟨l, hl, hnd, hm⟩ := C14_gen_intersection amb q (build Strict.none (meanCenter id) bs) (extent bs) fuel (by omega)
+  refine ⟨_, l, C14_gen_build amb bs fuel hf, hl, hnd, fun i => ?_, fun i => ?_⟩
+  · rw [hm, C14_query Strict.none (by decide) (meanCenter id) bs hv q i]
+  · rw [hm, (C14_brute_force Strict.none (by decide) (meanCenter id) bs hv q i).1]
+
+/-- `C14_terminates` for the regenerated constructor: no `fuelOut` from `bs.length + 1` units of fuel on -/
+theorem C14_gen_terminates (amb : Nat) (bs : List IBox) :
+    ∃ t, ∀ fuel, bs.length < fuel → Gen.rtree_Index_init Rounding.exact amb fuel (encIBoxes bs) = .val t :=
+  ⟨_, fun fuel hf => C14_gen_build amb bs fuel hf⟩
+
+/-- non-vacuity: a concrete valid box list; the regenerated class reports the horizontal stroke of finding F8 -/
+example : ∀ b ∈ [((0 : Nat), (⟨2, 0, 3, 0⟩ : Box))], b.2.Valid := by
+  intro b hb; simp at hb; subst hb; constructor <;> norm_num
+example : ∃ t l, Gen.rtree_Index_init Rounding.exact 53 2 (encIBoxes [(0, ⟨2, 0, 3, 0⟩)]) = .val t ∧
+    Gen.rtree_Index_intersection Rounding.exact 53 2 t (encBox ⟨1, -1, 3, 0⟩) = .val (encSet l) ∧ 0 ∈ l := by
+  obtain ⟨t, l, h1, h2, _, hm, _⟩ := C14_gen_query 53 [(0, ⟨2, 0, 3, 0⟩)]
+    (by intro b hb; simp at hb; subst hb; constructor <;> norm_num) ⟨1, -1, 3, 0⟩ 2 (by decide)
+  exact ⟨t, l, h1, h2, (hm 0).2 ⟨⟨2, 0, 3, 0⟩, by simp, by simp [overlaps]; norm_num⟩⟩
 
 end Plotink
